@@ -17,7 +17,12 @@ pub(crate) fn fill_buffer<R: std::io::Read>(
     let mut offset = 0;
     let chunk_size = chunk_size.unwrap_or(buffer.len());
     loop {
-        let read = source.read(&mut buffer[offset..chunk_size])?;
+        let read = match source.read(&mut buffer[offset..chunk_size]) {
+            Ok(read) => read,
+            // transient: nothing was read, and callers can not resume a partially filled buffer
+            Err(err) if err.kind() == io::ErrorKind::Interrupted => continue,
+            Err(err) => return Err(err),
+        };
         offset += read;
 
         if read == 0 || offset == chunk_size {
@@ -34,7 +39,12 @@ pub(crate) fn fill_buffer_bytes<R: std::io::BufRead>(
 ) -> std::io::Result<usize> {
     let mut read_total = 0;
     while buffer.remaining() < len {
-        let source_buffer = source.fill_buf()?;
+        let source_buffer = match source.fill_buf() {
+            Ok(source_buffer) => source_buffer,
+            // transient: nothing was consumed
+            Err(err) if err.kind() == io::ErrorKind::Interrupted => continue,
+            Err(err) => return Err(err),
+        };
         let read = source_buffer.len().min(len - buffer.remaining());
         buffer.put_slice(&source_buffer[..read]);
         read_total += read;
